@@ -469,6 +469,26 @@ func (p *Program) canon(fn *Func, x ast.Expr, depth int) string {
 						}
 					}
 				}
+				// the same through a parameter of a looked-into helper bound to (the address of) such a local
+				if id, ok := ast.Unparen(v.X).(*ast.Ident); ok {
+					if vr, isVar := info.Uses[id].(*types.Var); isVar && isParamOf(fn, vr) {
+						if bfn, bx := resolveBound(fn, id); bfn != fn || bx != ast.Expr(id) {
+							root := ast.Unparen(bx)
+							if u, isU := root.(*ast.UnaryExpr); isU && u.Op == token.AND {
+								root = ast.Unparen(u.X)
+							}
+							if rid, isID := root.(*ast.Ident); isID {
+								if robj := bfn.Info().Uses[rid]; robj != nil && !bfn.Defs().fieldMut[robj] {
+									if lit := p.compositeOf(bfn, rid); lit != nil {
+										if fv := litField(lit, sel.Obj().Name()); fv != nil {
+											return p.canon(bfn, fv, depth+1)
+										}
+									}
+								}
+							}
+						}
+					}
+				}
 				base := p.canon(fn, v.X, depth+1)
 				if strings.HasPrefix(base, "&var:") || strings.HasPrefix(base, "&local:") || strings.HasPrefix(base, "&recv") || strings.HasPrefix(base, "&param:") {
 					base = base[1:] // (&x).f is x.f
